@@ -1,8 +1,10 @@
 ---- MODULE SvdCatalog ----
 \* Stub used only for syntax checking (setup.sh); the real module is generated on every run of ./check C16
+\* sa / lam (optional): the operator is DECLARED SelfAdjoint, lam = its eigenvalues listed by decreasing modulus
 EXTENDS Integers, Sequences
 SCases == <<[id |-> "stub", sig |-> <<2>>,
-             U |-> [r |-> 1, c |-> 1, d |-> 1, e |-> <<<<<<1, 0>>>>>>],
+             U |-> [r |-> 1, c |-> 1, d |-> 1, e |-> <<<<<<-1, 0>>>>>>],
              V |-> [r |-> 1, c |-> 1, d |-> 1, e |-> <<<<<<1, 0>>>>>>],
-             A |-> [r |-> 1, c |-> 1, d |-> 1, e |-> <<<<<<2, 0>>>>>>]]>>
+             A |-> [r |-> 1, c |-> 1, d |-> 1, e |-> <<<<<<-2, 0>>>>>>],
+             sa |-> TRUE, lam |-> <<-2>>]>>
 ====
